@@ -72,6 +72,9 @@ def image_pair(draw, min_rows=5, max_rows=12, min_cols=6, max_cols=14, max_val=2
         p["valid"], p["nodata"] = draw(st.sampled_from([(5, 7), (1, 0), (0, 255), (2, 1)]))
     else:
         p["valid"], p["nodata"] = 0, 1
+    if conventions == "per-image" and draw(st.integers(0, 2)) == 0:
+        # each dataset announces its own convention: the right mask may be coded differently from the left one
+        p["valid_right"], p["nodata_right"] = draw(st.sampled_from([(5, 7), (1, 0), (0, 255), (2, 1), (0, 1)]))
     return p
 
 
@@ -124,14 +127,23 @@ def materialise_pair(p):
         hit = rs.rand(H, W) < p["noise"]["frac"]
         right = np.where(hit, rs.randint(0, int(left.max()) + 1, (H, W)), right).astype(np.float32)
     ml = _mask(p.get("mask_left"), H, W, p["valid"], p["nodata"])
-    mr = _mask(p.get("mask_right"), H, W, p["valid"], p["nodata"])
+    mr = _mask(p.get("mask_right"), H, W, p.get("valid_right", p["valid"]), p.get("nodata_right", p["nodata"]))
     return left, right, ml, mr
+
+
+def conv_kwargs(p, swap=False):
+    """mask-convention kwargs of drive.make_inputs / run_pipeline for a pair payload (swap: images exchanged)"""
+    vl, nl = p["valid"], p["nodata"]
+    vr, nr = p.get("valid_right", vl), p.get("nodata_right", nl)
+    if swap:
+        vl, nl, vr, nr = vr, nr, vl, nl
+    return dict(valid=vl, nodata=nl, valid_right=vr, nodata_right=nr)
 
 
 def pair_kwargs(p):
     """kwargs for drive.run_pipeline / make_inputs"""
     left, right, ml, mr = materialise_pair(p)
-    return dict(left=left, right=right, msk_left=ml, msk_right=mr, valid=p["valid"], nodata=p["nodata"])
+    return dict(left=left, right=right, msk_left=ml, msk_right=mr, **conv_kwargs(p))
 
 
 # ----------------------------------------------------------------------------------------------------------------
